@@ -548,6 +548,15 @@ func (m *NodeManager) synchronizeBlocks(ctx context.Context, interrupt <-chan in
 
 	hashes := []bitcoin.Hash32{hash}
 	for {
+		if height <= m.config.StartBlockHeight {
+			// The tip can be exactly at the start height, so check before stepping back.
+			logger.InfoWithFields(ctx, []logger.Field{
+				logger.Stringer("block_hash", hash),
+				logger.Int("block_height", height),
+			}, "Reached start block height")
+			break
+		}
+
 		// Get previous header hash
 		previousHash, _ := m.headers.PreviousHash(hash)
 		if previousHash == nil {
